@@ -1,7 +1,8 @@
 """Contracts: soupsieve.css_match._DocumentNav (tree navigation; C01, C03, C08, C19)."""
 from pyvc.dsl import contract
 from pyvc.types import INT, BOOL, STR, TOpt, TSeq
-from pyvc.tree import NODE, SEQ_NODE, CSSMATCH, OPT_STR, ATTRVAL, OPT_ATTRVAL, RAW
+from pyvc.tree import NODE, SEQ_NODE, CSSMATCH, OPT_STR, ATTRVAL, OPT_ATTRVAL, RAW, SEQ_ATTR
+from pyvc.types import TTup
 
 N = 'soupsieve.css_match._DocumentNav.'
 
@@ -60,3 +61,11 @@ contract(N + 'get_attribute_by_name', params=dict(el=NODE, name=STR, default=OPT
          ensures=['result == attr_by_name(el, name, default)'], locals=dict(value=OPT_ATTRVAL),
          loops={1: dict(invariant=['value == default', 'raw_index_ci(_seq1, name, _i1) == raw_index_ci(_seq1, name, 0)', '_seq1 == rattrs(el)'])},
          properties=['C01', 'C11', 'C08'])
+
+contract(N + 'split_namespace', params=dict(el=NODE, attr_name=STR), returns=TTup(OPT_STR, OPT_STR), requires=['el is not None'],
+         ensures=['result[0] == attr_ns(el, attr_name)', 'result[1] == attr_local(el, attr_name)'], opaque=True,
+         notes='A-bs4: getattr(key, "namespace"/"name", None) of a NamespacedAttribute / plain str key', properties=['C12'])
+contract(N + 'iter_attributes', params=dict(el=NODE), returns=SEQ_ATTR, kind='generator',
+         ensures=['result == npairs(el)'],
+         loops={1: dict(invariant=['_seq1 == rattrs(el)', 'yields + npairs_from(_seq1, _i1) == npairs_from(_seq1, 0)'])},
+         properties=['C01', 'C12'])
